@@ -934,7 +934,15 @@ func (v *Verifier) VerifyFunction(fn *ssa.Function, fc *FuncContract) (err error
 				v.lock(st, mu, true, fn.Pos())
 				continue
 			}
-			st.assume(pre.boolExpr(c.Expr))
+			// a precondition is an assumption: a conjunct that can no longer be stated (it mentions a name that does not
+			// exist any more) is dropped, which only makes the verification stricter
+			for _, conj := range splitAndExpr(c.Expr) {
+				if g, ok := pre.tryBool(conj); ok {
+					st.assume(g)
+				} else {
+					v.assumptions["precondition conjunct dropped (names unknown on this tree): "+conj.Text] = true
+				}
+			}
 		}
 	}
 	v.entry = st.clone()
@@ -1112,3 +1120,30 @@ func (v *Verifier) vacuity(st *State, what string) {
 }
 
 func (v *Verifier) vacuityLate(st *State) {}
+
+
+func splitAndExpr(e *Expr) []*Expr {
+	if e.Op == "paren" {
+		return splitAndExpr(e.Args[0])
+	}
+	if e.Op == "bin" && e.Name == "&&" {
+		return append(splitAndExpr(e.Args[0]), splitAndExpr(e.Args[1])...)
+	}
+	if e.Text == "" {
+		e.Text = "(conjunct)"
+	}
+	return []*Expr{e}
+}
+
+func (ev *Eval) tryBool(e *Expr) (t *Term, ok bool) {
+	defer func() {
+		if r := recover(); r != nil {
+			if _, isA := r.(abortExec); isA {
+				t, ok = nil, false
+				return
+			}
+			panic(r)
+		}
+	}()
+	return ev.boolExpr(e), true
+}
